@@ -181,6 +181,16 @@ CHECKS["C26"] = dict(
     technique="SMT (z3, integer tables) check of order and topology axioms over relation tables regenerated from the real code",
     design="§4 C26", engine="E3", note=TABLE_NOTE)
 
+CHECKS["C25"] = dict(
+    level="model_checking",
+    text="The six comparison operators and element membership are tabulated by the real code on every pair of the "
+         "12 predefined spaces plus all directional spaces with orders in {0,1,2,inf} (1 and 2 directions; thorough 3); "
+         "z3 proves over symbolic indices: > is the converse of <, <=/>= definitions, irreflexive, asymmetric, "
+         "transitive, == an equivalence and a congruence for <, membership == (<=), and agreement of < with the "
+         "inclusion diagram of the predefined spaces.",
+    technique="SMT (z3) check of partial-order axioms over relation tables regenerated from the real operators",
+    design="§4 C25", engine="E3", note=TABLE_NOTE)
+
 NOT_APPLICABLE = {
     "C11": "Signature injectivity is injectivity of string renderings (repr/str, numpy array printing, float "
            "formatting) composed with sha512: CrossHair cannot confirm it, z3/cvc5 string theories answer unknown, "
